@@ -23,12 +23,14 @@ DETERMINISM_SELFTEST = False  # phase 2 is pure table lookup; phase 1 repeats it
 _T = {"tier": None}
 
 
-def language(tier):
+def language(tier, uname="U1"):
     base = []
-    fo = Q.field_options()
+    fo = Q.field_options() if uname == "U1" else Q.field_options_U2()
     keys = list(fo)
     wins = [{}, {"since": 10}, {"since": 20}, {"since": 21}, {"until": 20}, {"until": 19}, {"until": 30}, {"since": 11, "until": 29},
             {"since": 20, "until": 20}, {"since": Q.T9}, {"until": Q.T9}]
+    if uname == "U2":
+        wins = [{}, {"since": 7}, {"since": 10}, {"since": 15}, {"until": 7}, {"until": 25}, {"since": 4}, {"since": 21}, {"since": 7, "until": 25}]
     if tier == "quick":
         wins = wins[:6]
     for w in wins:
@@ -76,20 +78,20 @@ def _tab_init(tier):
     from .. import env
 
     env.boot()
-    _T["lang"] = language(tier)
+    _T["langs"] = {u: language(tier, u) for u in ("U1", "U2")}
 
 
 def _tab_one(task):
-    backend, idx, S = task
-    uni = Q.U1()
+    backend, idx, S, uname = task
+    uni = Q.UNIVERSES[uname]()
     names = list(uni)
     bit = {uni[n]["id"]: i for i, n in enumerate(names)}
     sess = seq.session(backend)
 
     def compute():
-        Q.build_store(sess, S)
+        Q.build_store(sess, S, uni)
         out = array.array("H")
-        for f in _T["lang"]:
+        for f in _T["langs"][uname]:
             evs, eose, notices, closed, others = Q.answer(sess, [f])
             m = 0
             for e in evs:
@@ -102,38 +104,35 @@ def _tab_one(task):
     out = compute()
     if idx == 0 or idx == 37:
         if compute() != out:
-            return backend, idx, None
-    return backend, idx, out.tobytes()
+            return backend, idx, None, uname
+    return backend, idx, out.tobytes(), uname
 
 
 def _tabulate(tier):
-    names = Q.members(tier)
-    stores = list(Q.subsets(names))
-    tasks = [(b, i, S) for b in ("sql", "kv") for i, S in enumerate(stores)]
+    tasks = []
+    tables = {}
+    storesets = {}
+    for uname in ("U1", "U2"):
+        names = Q.members(tier, uname)
+        stores = list(Q.subsets(names))
+        storesets[uname] = stores
+        tables[uname] = {"sql": [None] * len(stores), "kv": [None] * len(stores)}
+        tasks += [(b, i, S, uname) for b in ("sql", "kv") for i, S in enumerate(stores)]
     ctx = mp.get_context("fork")
     nproc = int(os.environ.get("NRMC_PROCS", "16"))
-    table = {"sql": [None] * len(stores), "kv": [None] * len(stores)}
     with ctx.Pool(nproc, initializer=_tab_init, initargs=(tier,)) as pool:
-        for backend, idx, raw in pool.imap_unordered(_tab_one, tasks, chunksize=1):
+        for backend, idx, raw, uname in pool.imap_unordered(_tab_one, tasks, chunksize=1):
             if raw is None:
                 from ..env import HarnessError
 
                 raise HarnessError("C11 phase 1: determinism self-test failed for store %d on %s" % (idx, backend))
             a = array.array("H")
             a.frombytes(raw)
-            table[backend][idx] = a
-    return stores, table
+            tables[uname][backend][idx] = a
+    return storesets, tables
 
 
-def cases(tier):
-    import time
-
-    t0 = time.time()
-    lang = language(tier)
-    stores, table = _tabulate(tier)
-    _T.update(tier=tier, lang=lang, stores=stores, table=table, index={S: i for i, S in enumerate(stores)},
-              phase1_s=time.time() - t0)
-    # relation pairs (indices into lang)
+def _relations(lang):
     fidx = {Q.fkey([f]): i for i, f in enumerate(lang)}
     parents = []   # (child, parent): child has one more key
     unions = []    # (multi, [singles])
@@ -149,7 +148,6 @@ def cases(tier):
                     h[key] = [v]
                     parts.append(fidx[Q.fkey([h])])
                 unions.append((i, parts))
-        # window narrowing between filters that differ only in since / until
     bybase = {}
     for i, f in enumerate(lang):
         b = Q.fkey([{a: v for a, v in f.items() if a not in ("since", "until")}])
@@ -165,25 +163,45 @@ def cases(tier):
                 ui, uj = fi.get("until", 2 ** 40), fj.get("until", 2 ** 40)
                 if si >= sj and ui <= uj and (si, ui) != (sj, uj):
                     narrower.append((i, j))  # ans(i) subset of ans(j)
-    _T.update(parents=parents, unions=unions, narrower=narrower)
-    return [(b, i) for b in ("sql", "kv") for i in range(len(stores))]
+    return parents, unions, narrower
+
+
+def cases(tier):
+    import time
+
+    t0 = time.time()
+    storesets, tables = _tabulate(tier)
+    _T.update(tier=tier, phase1_s=time.time() - t0, U={})
+    out = []
+    for uname in ("U1", "U2"):
+        lang = language(tier, uname)
+        parents, unions, narrower = _relations(lang)
+        stores = storesets[uname]
+        _T["U"][uname] = dict(lang=lang, stores=stores, table=tables[uname], index={S: i for i, S in enumerate(stores)},
+                              parents=parents, unions=unions, narrower=narrower)
+        out += [(b, i, uname) for b in ("sql", "kv") for i in range(len(stores))]
+    return out
 
 
 def describe(case):
-    return {"backend": case[0], "store": list(_T["stores"][case[1]]) if _T.get("stores") else case[1], "tier": _T.get("tier")}
+    uname = case[2] if len(case) > 2 else "U1"
+    U = _T.get("U", {}).get(uname)
+    return {"backend": case[0], "store": list(U["stores"][case[1]]) if U else case[1], "tier": _T.get("tier"), "universe": uname}
 
 
 def run_case(case):
-    backend, si = case
-    lang = _T["lang"]
-    stores = _T["stores"]
-    table = _T["table"][backend]
+    backend, si = case[:2]
+    uname = case[2] if len(case) > 2 else "U1"
+    TU = _T["U"][uname]
+    lang = TU["lang"]
+    stores = TU["stores"]
+    table = TU["table"][backend]
     S = stores[si]
     row = table[si]
-    uni = Q.U1()
+    uni = Q.UNIVERSES[uname]()
     names = list(uni)
     viol = []
-    cid = "%s|S=%s" % (backend, ",".join(S))
+    cid = "%s|%s|S=%s" % (backend, uname, ",".join(S))
     rel = 0
 
     def show(mask):
@@ -192,7 +210,7 @@ def run_case(case):
     # (i) unrelated data: compare with every S - {x}
     for x in S:
         Sm = tuple(n for n in S if n != x)
-        rowm = table[_T["index"][Sm]]
+        rowm = table[TU["index"][Sm]]
         ex = uni[x]
         for fi, f in enumerate(lang):
             if Q.loose_matches(f, ex):
@@ -203,20 +221,20 @@ def run_case(case):
                              "detail": "adding non-matching %s changes the answer of %s from %s to %s | store={%s}" % (
                                  x, Q.fkey([f]), show(rowm[fi]), show(row[fi]), ",".join(S))})
     # (ii) monotone in the filter
-    for child, parent in _T["parents"]:
+    for child, parent in TU["parents"]:
         rel += 1
         if row[child] & ~row[parent]:
             viol.append({"case": cid, "clause": "more-conditions-fewer-results", "sig": "%s<%s" % (Q.fkey([lang[child]]), Q.fkey([lang[parent]])),
                          "detail": "%s returns %s which %s does not return (%s) | store={%s}" % (
                              Q.fkey([lang[child]]), show(row[child] & ~row[parent]), Q.fkey([lang[parent]]), show(row[parent]), ",".join(S))})
-    for i, j in _T["narrower"]:
+    for i, j in TU["narrower"]:
         rel += 1
         if row[i] & ~row[j]:
             viol.append({"case": cid, "clause": "narrower-window-fewer-results", "sig": "%s<%s" % (Q.fkey([lang[i]]), Q.fkey([lang[j]])),
                          "detail": "%s returns %s which the wider %s does not | store={%s}" % (
                              Q.fkey([lang[i]]), show(row[i] & ~row[j]), Q.fkey([lang[j]]), ",".join(S))})
     # (iii) union of single values
-    for multi, parts in _T["unions"]:
+    for multi, parts in TU["unions"]:
         rel += 1
         u = 0
         for p in parts:
@@ -232,15 +250,21 @@ def run_case(case):
 
 
 def coverage(tier, agg):
-    n_st = len(_T["stores"])
+    per = {}
+    total = 0
+    for uname, TU in _T["U"].items():
+        n_st = len(TU["stores"])
+        per[uname] = {"stores": n_st, "filters": len(TU["lang"]), "child_parent_pairs": len(TU["parents"]), "narrower_wider_pairs": len(TU["narrower"]),
+                      "multi_value_filters": len(TU["unions"])}
+        total += 2 * n_st * len(TU["lang"])
     return {
-        "rule": "phase 1: ans(f,S) tabulated through the real REQ path for all %d subsets S of U1 x %d single filters (language closed under "
-                "dropping one key and splitting a multi-value field; windows around every timestamp) on both backends = %d REQs; phase 2: "
-                "relations (i) every edge S-{x} -> S with x not matching f even loosely, (ii) %d child/parent and %d narrower/wider filter pairs, "
-                "(iii) %d multi-value filters vs the union of their single values; evaluations = relation instances checked; non-trivial "
-                "case = store with at least one non-empty answer" % (
-                    n_st, len(_T["lang"]), 2 * n_st * len(_T["lang"]), len(_T["parents"]), len(_T["narrower"]), len(_T["unions"])),
-        "phase1_req_evaluations": 2 * n_st * len(_T["lang"]),
+        "rule": "phase 1: ans(f,S) tabulated through the real REQ path for every subset S of each universe (U1: regular collision universe; U2: "
+                "byte-order neighbours) x every single filter of a language closed under dropping one key and splitting a multi-value field, on both "
+                "backends; phase 2: relations (i) every edge S-{x} -> S with x not matching f even loosely, (ii) child/parent and narrower/wider "
+                "filter pairs, (iii) multi-value filters vs the union of their single values; evaluations = relation instances checked; non-trivial "
+                "case = store with at least one non-empty answer",
+        "per_universe": per,
+        "phase1_req_evaluations": total,
         "phase1_wall_s": round(_T.get("phase1_s", 0), 1),
         "backends": ["sql", "kv"],
     }
@@ -251,8 +275,9 @@ def replay(desc):
 
     tier = desc.get("tier") or "quick"
     cases(tier)
-    si = _T["index"][tuple(desc["store"])]
-    r = run_case((desc["backend"], si))
+    uname = desc.get("universe", "U1")
+    si = _T["U"][uname]["index"][tuple(desc["store"])]
+    r = run_case((desc["backend"], si, uname))
     for v in r["viol"][:20]:
         print(v["clause"], v["detail"])
     return r["viol"]
